@@ -47,6 +47,10 @@ def shard(S, p):
             shape[rng.randrange(len(shape))] = 1
         vals = GS.values(rng, O.prod(shape), rng.choice(["positive", "positive", "int"]))
         vals = [v + 1.0 for v in vals]
+        if rng.random() < 0.3:
+            tot = sum(vals)
+            vals = [v / tot for v in vals]        # an input that is already a frequency spectrum
+            S.count("normalized_inputs")
         inp = GS.npy_bytes(shape, vals) if rng.random() < 0.7 else GS.text_spectrum(shape, vals, 17)
         d = len(shape)
         for subset in itertools.product([False, True], repeat=4):
